@@ -313,6 +313,17 @@ Theorem C17_rdf_attributes_of_tree : forall fx tn root g,
 Proof. exact all_rdf_attributes_of_tree. Qed.
 Print Assumptions C17_rdf_attributes_of_tree.
 
+(* the empty tree (reached by clear(), remove_children() on the root, a filter
+   that keeps nothing ...) exports its root alone: no edge, no node triple *)
+Theorem C17_empty_tree_exports : forall id i fx tn u a isroot,
+  rdf_of_tree fx tn (T id i []) = [TName RSys tn] /\
+  dot_edges u a (T id i []) = [] /\
+  mer_edges u a (T id i []) = [] /\
+  map dkey (dot_nodes true u a isroot tn (T id i [])) = (if a then [key u (T id i [])] else []) /\
+  map (fun d : mnode => fst (fst d)) (mer_nodes u a (T id i [])) = (if a then [0] else []).
+Proof. exact empty_tree_exports. Qed.
+Print Assumptions C17_empty_tree_exports.
+
 (* ============================================================== non-vacuity *)
 (* a typed tree with a clone of the start node two levels below it, a falsy
    data_id (0), an empty data_id and an empty kind *)
